@@ -53,6 +53,16 @@ def config_content_hash(cfg) -> str:
     return hash_config(c)
 
 
+def component_settings(comp):
+    "the settings a component object holds (not its trained state), read through its public face"
+    if isinstance(comp, Component):
+        try:
+            return json.dumps(comp.dump_config(), sort_keys=True, default=str)
+        except Exception as e:
+            return "!" + type(e).__name__
+    return json.dumps({k: repr(v) for k, v in sorted(vars(comp).items()) if k not in ("trained_on", "n_items")}) if hasattr(comp, "__dict__") else ""
+
+
 def guarded(f):
     try:
         return f()
@@ -117,6 +127,9 @@ class World:
         # every component that is an object with an identity of its own (Component instances and plain callable objects; functions are shared)
         o["inst"] = {n.name: [id(n.component), toks.get(n.name)] for n in p.nodes()
                      if isinstance(n, ComponentNode) and not isinstance(n.component, FunctionType)}
+        # what every component object says of its own settings (a pipeline's configuration document describes the components it runs)
+        o["settings"] = {n.name: component_settings(n.component) for n in p.nodes()
+                         if isinstance(n, ComponentNode) and not isinstance(n.component, FunctionType)}
         res = []
         for inputs in runs:
             row = []
@@ -506,22 +519,45 @@ class World:
 
 
 def ilist_digest(il: ItemList) -> str:
+    "the content of an item list: identifiers, ordering, every field, its numbers where it has a vocabulary (public accessors only)"
     parts = {"ids": il.ids().tolist(), "ordered": bool(il.ordered), "len": len(il)}
     for f in sorted(getattr(il, "_fields", {}).keys()):
         try:
             parts["f:" + f] = np.asarray(il.field(f)).tolist()
         except Exception as e:
             parts["f:" + f] = "!" + type(e).__name__
-    try:
-        parts["numbers"] = il.numbers().tolist() if il._numbers is not None else None
-    except Exception:
-        parts["numbers"] = "!"
+    parts["numbers"] = guarded(lambda: il.numbers(missing="negative").tolist())
     return digest(parts)
+
+
+def ilist_state(il: ItemList) -> dict:
+    """the full observable state of an item list, aspect by aspect: content, WHICH vocabulary it has (identity: compared within one process
+    only) and what that vocabulary holds, its numbers with each way of treating unknown items and relative to its own vocabulary handed
+    back to it, its data-frame forms"""
+    voc = guarded(lambda: il.vocabulary)
+    has = voc is not None and not isinstance(voc, str)
+    return {
+        "content": ilist_digest(il),
+        "vocabulary-identity": id(voc) if has else voc,
+        "vocabulary-content": guarded(lambda: digest([str(x) for x in voc.ids().tolist()])) if has else None,
+        "numbers:missing=error": guarded(lambda: il.numbers(missing="error").tolist()),
+        "numbers:missing=negative": guarded(lambda: il.numbers(missing="negative").tolist()),
+        "numbers:own-vocabulary": guarded(lambda: il.numbers(vocabulary=voc, missing="negative").tolist()) if has else None,
+        "to_df": guarded(lambda: frame_digest(il.to_df())),
+        "to_df:ids-only": guarded(lambda: frame_digest(il.to_df(numbers=False))),
+        "fields": guarded(lambda: sorted(il.to_df(numbers=False).columns.tolist())),
+    }
+
+
+def state_diff(a: dict, b: dict) -> list:
+    return sorted(k for k in a if a[k] != b.get(k))
 
 
 _WRAPPED: set = set()
 _CHANGES: list = []
 _CALLS: list = [0]
+_DETAIL: dict = {}
+_LIST_KIND: list = ["ids"]       # how the item list handed to the pipeline in the current run is represented
 
 
 def watch_component_inputs(pipe: Pipeline):
@@ -537,13 +573,15 @@ def watch_component_inputs(pipe: Pipeline):
 
         def make(orig, cls):
             def call(self, *args, **kwargs):
-                watched = [(k, v, ilist_digest(v)) for k, v in list(kwargs.items()) + list(enumerate(args)) if isinstance(v, ItemList)]
+                watched = [(k, v, ilist_state(v)) for k, v in list(kwargs.items()) + list(enumerate(args)) if isinstance(v, ItemList)]
                 out = orig(self, *args, **kwargs)
                 for k, v, d0 in watched:
                     _CALLS[0] += 1
-                    d1 = ilist_digest(v)
+                    d1 = ilist_state(v)
                     if d1 != d0:
-                        _CHANGES.append(f"{cls.__module__}:{cls.__qualname__}.{k}")
+                        key = f"{cls.__module__}:{cls.__qualname__}.{k}:list={_LIST_KIND[0]}"
+                        _CHANGES.append(key)
+                        _DETAIL.setdefault(key, state_diff(d0, d1))
                 return out
 
             call.__wrapped__ = orig
@@ -564,38 +602,87 @@ def run_history(case):
     return {"steps": steps}
 
 
+def candidate_lists(case, full: Dataset, train: Dataset):
+    """the same candidates in every REPRESENTATION an item list has: identifiers only; numbers + vocabulary; identifiers + a vocabulary --
+    the full catalogue's, the training set's, one that numbers the catalogue in another order (a vocabulary that is not the object the
+    model was trained with); with and without a further field"""
+    from lenskit.data import Vocabulary
+
+    cands = list(case["candidates"])
+    known = [i for i in cands if i in set(full.items.ids().tolist())]
+    ids = np.array(cands, dtype=np.int64)
+    kids = np.array(known, dtype=np.int64)
+    perm = Vocabulary(np.array(sorted(full.items.ids().tolist(), key=lambda i: (i * 7) % 13 * 100 + i), dtype=np.int64), name="item")
+    out = [
+        ("ids", lambda: ItemList(item_ids=ids)),
+        ("numbers+vocabulary:catalogue", lambda: ItemList(item_nums=full.items.numbers(kids), vocabulary=full.items)),
+        ("ids+vocabulary:catalogue", lambda: ItemList(item_ids=kids, vocabulary=full.items)),
+        ("ids+vocabulary:training-set", lambda: ItemList(item_ids=np.array([i for i in known if i in set(train.items.ids().tolist())], dtype=np.int64),
+                                                        vocabulary=train.items)),
+        ("ids+vocabulary:permuted", lambda: ItemList(item_ids=ids, vocabulary=perm)),
+        ("ids+vocabulary:catalogue+field", lambda: ItemList(item_ids=kids, vocabulary=full.items, prior=np.arange(len(kids), dtype=np.float64))),
+        ("numbers+vocabulary:permuted", lambda: ItemList(item_nums=perm.numbers(kids), vocabulary=perm)),
+    ]
+    return out
+
+
 def run_standard(case):
     "train a standard pipeline around a shipped scorer on a small dataset and run it, watching every ItemList input"
     from lenskit.pipeline import predict_pipeline, topn_pipeline
+    from lenskit.splitting import sample_records
     import importlib
 
     db = DatasetBuilder("std")
     df = pd.DataFrame(case["ratings"], columns=["user_id", "item_id", "rating", "timestamp"])
     db.add_interactions("rating", df, entities=["user", "item"], missing="insert", default=True)
-    ds = db.build()
-    d0 = None
+    full = db.build()
+    # the data the model is trained on: the catalogue itself, or a training set DERIVED from it (a split; the records on part of the
+    # items in a dataset of its own that numbers them in another order)
+    how = case.get("train_on", "full")
+    if how == "split":
+        ds = sample_records(full, size=max(1, len(df) // 5), rng=case.get("seed", 3)).train
+    elif how == "subset":
+        keep = sorted(df["item_id"].unique().tolist())
+        keep = keep[: max(3, (2 * len(keep)) // 3)]
+        tb = DatasetBuilder("train")
+        tb.add_entities("item", keep[::-1])
+        tb.add_entities("user", sorted(df["user_id"].unique().tolist()))
+        tb.add_interactions("rating", df[df["item_id"].isin(keep)], entities=["user", "item"], default=True)
+        ds = tb.build()
+    else:
+        ds = full
     m, q = case["scorer"].split(":")
     cls = getattr(importlib.import_module(m), q)
     scorer = cls(**case.get("settings", {}))
     pipe = topn_pipeline(scorer, predicts_ratings=True, n=case.get("n", 5)) if case["builder"] == "topn" else predict_pipeline(scorer)
     watch_component_inputs(pipe)
-    before = World().obs_dset(ds, True)
+    before = [World().obs_dset(d, True) for d in ([ds] if ds is full else [ds, full])]
     pipe.train(ds, TrainingOptions(rng=11))
     n0, c0 = len(_CHANGES), _CALLS[0]
     results = []
+    kinds = []
     for u in case["users"]:
-        items = ItemList(item_ids=np.array(case["candidates"], dtype=np.int64))
-        di = ilist_digest(items)
-        try:
-            if case["builder"] == "topn":
-                out = pipe.run("recommender", query=u, items=items)
-            else:
-                out = pipe.run("rating-predictor", query=u, items=items)
-            results.append(len(out))
-        except Exception as e:
-            results.append("!" + type(e).__name__)
-        if ilist_digest(items) != di:
-            _CHANGES.append("pipeline-input:items")
-    after = World().obs_dset(ds, True)
-    return {"std": True, "changes": sorted(set(_CHANGES[n0:])), "calls": _CALLS[0] - c0, "results": results,
-            "dataset_unchanged": before == after, "before": before, "after": after}
+        for kind, make in candidate_lists(case, full, ds):
+            items = make()
+            _LIST_KIND[0] = kind
+            kinds.append(kind)
+            di = ilist_state(items)
+            try:
+                if case["builder"] == "topn":
+                    out = pipe.run("recommender", query=u, items=items)
+                else:
+                    out = pipe.run("rating-predictor", query=u, items=items)
+                results.append(len(out))
+            except Exception as e:
+                results.append("!" + type(e).__name__)
+            d1 = ilist_state(items)
+            if d1 != di:
+                key = "pipeline-input:items:list=" + kind
+                _CHANGES.append(key)
+                _DETAIL.setdefault(key, state_diff(di, d1))
+    _LIST_KIND[0] = "ids"
+    after = [World().obs_dset(d, True) for d in ([ds] if ds is full else [ds, full])]
+    changes = sorted(set(_CHANGES[n0:]))
+    return {"std": True, "changes": changes, "details": {k: _DETAIL.get(k, []) for k in changes}, "calls": _CALLS[0] - c0, "results": results,
+            "list_kinds": sorted(set(kinds)), "train_on": how,
+            "dataset_unchanged": before == after, "before": before[0], "after": after[0]}
